@@ -223,6 +223,11 @@ func c10Check(c *c10Case, res *c10Result) []string {
 		// a transport error that surfaces after the client has gone is the client's
 		okFinal = true
 	}
+	if !okFinal && last.Kind == "neterr" && c.Pool.Timeout != "" && res.Result == resultTimeout && res.Status == 408 && res.Body == "" {
+		// under load the pool's time limit may have expired before the (instant) transport
+		// error surfaced: then the attempt timed out — wall-clock upper bounds are not judged
+		okFinal = true
+	}
 	if !okFinal {
 		bad = append(bad, fmt.Sprintf("final-outcome-not-last-attempts:last=%s:got=%s/%d", last.Kind, res.Result, res.Status))
 	}
@@ -239,7 +244,7 @@ func TestVerif_C10_Retry(t *testing.T) {
 	fnSendRequest = c10Transport
 	defer func() { fnSendRequest = old }()
 
-	total := r.N(len(c10Classes)*90, len(c10Classes)*730)
+	total := r.N(len(c10Classes)*90, len(c10Classes)*3000)
 	for i := 0; i < total; i++ {
 		if !r.Mine(i) {
 			continue
